@@ -15,12 +15,16 @@
     - [value_or_error x] := [x <> RPanic /\ x <> RFuel]: the Go function returned
       (a value or an error).  [RFuel] = a loop of the decoder ran longer than
       |input|+1 iterations, i.e. the model of "loops forever";
-    - [faithful] is the code as it is; [fixes] switches the candidate repairs on:
-      [fx_custom_min] (parsePolicyElementCustom rejects Size < 32), [fx_cap]
-      (a count/size field larger than the bytes left in the reader is rejected
-      before [make]); [all_fixed] has both, [fix_custom] only the first;
+    - [faithful] is the code as it is; [legacy] is the code before the repairs of
+      this property's findings (commits a533fa8, 84f1c2a, f913973, 4423a4c,
+      6dfa3ec, 3c5bd57, 9c860bb), kept so that the [_needs_] theorems can state
+      what each repair is there for.  [fixes] has one switch per kind of
+      repair: [fx_custom_min] (parsePolicyElementCustom rejects Size < 32),
+      [fx_cap] (a count/size field larger than the bytes left in the reader is
+      rejected before [make]), [fx_bounds] (offsets and lengths are checked
+      before slicing); [fix_custom] has only the first;
     - [txt_reg_table]: (offset, width, slices?) of the 16 registers.Read*
-      functions in the order of ReadTXTRegisters; [read_reg_k d k] is the k-th.
+      functions in the order of ReadTXTRegisters; [read_reg_k fx d k] is the k-th.
     One model per decoder: parse_policy (tools.ParsePolicy), policy_data
     (ParsePolicyData), lookup_acm_size, acm_info (ACM.ParseACMInfo on the
     user area / serialised module), parse_txt_regs, parse_bios_data,
@@ -32,8 +36,12 @@
     pem_loop (the PEM block loop of parsePrivateKey / ReadPubKey over an
     abstract pem.Decode).
 
-    Naming: [_partial] = needs the visible extra hypothesis, [_refuted] = closed
-    witness on the faithful model (a finding of KNOWN_FINDINGS.json). *)
+    Naming: [_partial] = needs the visible extra hypothesis; [_needs_...] = a
+    closed witness (or a characterisation) showing that the code before the
+    named repair violated the statement, i.e. what the full theorem rests on.
+    No theorem of this file is refuted on the code as it is; the one finding
+    that stays open (fiano's fit.ParseSACMData allocating Size*4 bytes behind
+    tools.ParseACM) is third-party code and carries no model. *)
 From CSS Require Import Lib.Base Model.Decoders.
 From CSS Require Model.EventLog.
 From CSS Require Import Proofs.Decoders.
@@ -53,98 +61,97 @@ Theorem C15_ParsePolicyData_terminates : forall fx d,
 Proof. exact P_policy_data_terminates. Qed.
 Print Assumptions C15_ParsePolicyData_terminates.
 
-(** value or error: REFUTED on the code as it is (finding C15-LCP-custom-size-panic) *)
-Theorem C15_ParsePolicyData_refuted : exists d, lenZ d = 80 /\ run (policy_data faithful) d = RPanic.
-Proof. exact P_policy_data_refuted. Qed.
-Print Assumptions C15_ParsePolicyData_refuted.
+(** value or error for every input *)
+Theorem C15_ParsePolicyData_total : forall d, value_or_error (run (policy_data faithful) d).
+Proof. exact P_policy_data_total. Qed.
+Print Assumptions C15_ParsePolicyData_total.
 
-(** PARTIAL: holds once parsePolicyElementCustom rejects Size < 32 *)
-Theorem C15_ParsePolicyData_total_partial : forall fx d,
-  fx_custom_min fx = true -> value_or_error (run (policy_data fx) d).
-Proof. exact P_policy_data_partial. Qed.
-Print Assumptions C15_ParsePolicyData_total_partial.
+(** ... which rests on the size check of repair 6dfa3ec: without it the 80-byte
+    witness (custom element, Size = 20) panics; now it is an error *)
+Theorem C15_ParsePolicyData_needs_size_check : exists d, lenZ d = 80 /\ run (policy_data legacy) d = RPanic /\
+  outcome_of (run (policy_data faithful) d) = Err E_FIX.
+Proof. exact P_policy_data_needs_size_check. Qed.
+Print Assumptions C15_ParsePolicyData_needs_size_check.
 
-(** the panic has one site: the custom element panics only for Size < 32, and a
+(** the panic had one site: the custom element panicked only for Size < 32, and a
     custom-element parser that does not panic makes the whole decoder panic-free *)
 Theorem C15_ParsePolicyData_panic_only_custom_size :
-  (forall size s, elt_custom faithful size s = RPanic -> size < 32) /\
+  (forall size s, elt_custom legacy size s = RPanic -> size < 32) /\
   (forall fx, (forall size s, elt_custom fx size s <> RPanic) -> forall d, run (policy_data fx) d <> RPanic).
 Proof. exact P_policy_data_panic_site. Qed.
 Print Assumptions C15_ParsePolicyData_panic_only_custom_size.
 
-(** ... and the repair changes the result only on the inputs that panic today *)
+(** ... and that repair changed the result only on the inputs that used to panic *)
 Theorem C15_ParsePolicyData_fix_conservative : forall d,
-  run (policy_data faithful) d = RPanic \/ run (policy_data faithful) d = run (policy_data fix_custom) d.
+  run (policy_data legacy) d = RPanic \/ run (policy_data legacy) d = run (policy_data fix_custom) d.
 Proof. exact P_policy_data_fix_conservative. Qed.
 Print Assumptions C15_ParsePolicyData_fix_conservative.
 
-(** allocation in proportion to the input: REFUTED (finding C15-LCP-alloc-32bit-size): 80 bytes request 2 GiB *)
-Theorem C15_ParsePolicyData_alloc_refuted : exists d, lenZ d = 80 /\
-  2147483648 <= res_alloc (run (policy_data faithful) d).
-Proof. exact P_policy_data_alloc_refuted. Qed.
-Print Assumptions C15_ParsePolicyData_alloc_refuted.
+(** allocation in proportion to the input: the length-prefixed allocations stay
+    below 55 bytes per input byte plus 3 MiB (65535 PCR infos announced by a
+    16-bit count at the end of the input) *)
+Theorem C15_ParsePolicyData_alloc : forall d,
+  res_alloc (run (policy_data faithful) d) <= 55 * lenZ d + 3164040.
+Proof. exact P_policy_data_alloc. Qed.
+Print Assumptions C15_ParsePolicyData_alloc.
 
-(** PARTIAL: with the size guards (custom data length and list-2 element count
-    checked against the bytes left) the length-prefixed allocations stay below
-    55 bytes per input byte plus 3 MiB (65535 PCR infos announced by a 16-bit
-    count at the end of the input) *)
-Theorem C15_ParsePolicyData_alloc_partial : forall fx d, fx_cap fx = true ->
-  res_alloc (run (policy_data fx) d) <= 55 * lenZ d + 3164040.
-Proof. exact policy_data_alloc. Qed.
-Print Assumptions C15_ParsePolicyData_alloc_partial.
+(** ... which is what repair 3c5bd57 added: without it 80 bytes request 2 GiB, now 72 bytes *)
+Theorem C15_ParsePolicyData_alloc_needs_size_bound : exists d, lenZ d = 80 /\
+  2147483648 <= res_alloc (run (policy_data legacy) d) /\ res_alloc (run (policy_data faithful) d) = 72.
+Proof. exact P_policy_data_alloc_needs_cap. Qed.
+Print Assumptions C15_ParsePolicyData_alloc_needs_size_bound.
 
 (** * 3. ACM: tools.LookupACMSize, ACM.ParseACMInfo *)
 
-(** PARTIAL: needs a 32-byte header (finding C15-LookupACMSize-short-header) *)
-Theorem C15_LookupACMSize_total_partial : forall h, 32 <= lenZ h ->
-  value_or_error (run (lookup_acm_size h) h) /\ res_steps (run (lookup_acm_size h) h) <= 1 /\
-  res_alloc (run (lookup_acm_size h) h) = 0.
-Proof. exact P_lookup_partial. Qed.
-Print Assumptions C15_LookupACMSize_total_partial.
+Theorem C15_LookupACMSize_total : forall h,
+  value_or_error (run (lookup_acm_size faithful h) h) /\ res_steps (run (lookup_acm_size faithful h) h) <= 1 /\
+  res_alloc (run (lookup_acm_size faithful h) h) = 0.
+Proof. exact P_lookup_total. Qed.
+Print Assumptions C15_LookupACMSize_total.
 
-Theorem C15_LookupACMSize_refuted : exists h, lenZ h = 16 /\ run (lookup_acm_size h) h = RPanic.
-Proof. exact P_lookup_refuted. Qed.
-Print Assumptions C15_LookupACMSize_refuted.
+(** a buffer shorter than the 32 header bytes is an error ... *)
+Theorem C15_LookupACMSize_short_is_error : forall h, lenZ h < 32 ->
+  outcome_of (run (lookup_acm_size faithful h) h) = Err E_FIX.
+Proof. exact P_lookup_short_error. Qed.
+Print Assumptions C15_LookupACMSize_short_is_error.
 
-(** exactly: every shorter buffer panics *)
-Theorem C15_LookupACMSize_short_panics : forall h, lenZ h < 32 -> run (lookup_acm_size h) h = RPanic.
-Proof. exact P_lookup_short. Qed.
-Print Assumptions C15_LookupACMSize_short_panics.
+(** ... since repair f913973: before it every such buffer panicked *)
+Theorem C15_LookupACMSize_needs_length_check : forall h, lenZ h < 32 -> run (lookup_acm_size legacy h) h = RPanic.
+Proof. exact P_lookup_needs_length_check. Qed.
+Print Assumptions C15_LookupACMSize_needs_length_check.
 
 (** ParseACMInfo returns a value or an error for every user area / module (no loops: at most 9 reads) *)
 Theorem C15_ACMInfo_total : forall fx total user, value_or_error (run (acm_info fx total) user).
 Proof. exact P_acm_info_total. Qed.
 Print Assumptions C15_ACMInfo_total.
 
-(** allocation: REFUTED (finding C15-ACM-alloc-size-fields): Chipsets.Count = 0x08000000 requests 2 GiB *)
-Theorem C15_ACMInfo_alloc_refuted : exists total user, lenZ total = 4 /\ lenZ user = 48 /\
-  2147483648 <= res_alloc (run (acm_info faithful total) user).
-Proof. exact P_acm_info_alloc_refuted. Qed.
-Print Assumptions C15_ACMInfo_alloc_refuted.
+(** allocation in proportion to the module: at most 5 x module size + 256 KiB *)
+Theorem C15_ACMInfo_alloc : forall total user,
+  res_alloc (run (acm_info faithful total) user) <= 5 * Z.max (lenZ user) (lenZ total) + 262140.
+Proof. exact P_acm_info_alloc. Qed.
+Print Assumptions C15_ACMInfo_alloc.
 
-(** PARTIAL: with the list sizes checked against the bytes left in the module *)
-Theorem C15_ACMInfo_alloc_partial : forall fx total user, fx_cap fx = true ->
-  res_alloc (run (acm_info fx total) user) <= 5 * Z.max (lenZ user) (lenZ total) + 262140.
-Proof. exact acm_info_alloc. Qed.
-Print Assumptions C15_ACMInfo_alloc_partial.
+(** ... which is what repair 9c860bb added: without it Chipsets.Count = 0x08000000 requests 2 GiB, now 4 bytes *)
+Theorem C15_ACMInfo_alloc_needs_list_bound : exists total user, lenZ total = 4 /\ lenZ user = 48 /\
+  2147483648 <= res_alloc (run (acm_info legacy total) user) /\ res_alloc (run (acm_info faithful total) user) = 4.
+Proof. exact P_acm_info_alloc_needs_cap. Qed.
+Print Assumptions C15_ACMInfo_alloc_needs_list_bound.
 
 (** * 4. TXT register space and BIOSDATA (pkg/tools/txt.go) *)
 
-(** PARTIAL: needs an image that reaches TXT.DPR at 0x330 (finding C15-tools-TXT-short-image) *)
-Theorem C15_ParseTXTRegs_total_partial : forall d, 816 <= lenZ d -> value_or_error (run (parse_txt_regs d) d).
-Proof. exact P_txt_regs_partial. Qed.
-Print Assumptions C15_ParseTXTRegs_total_partial.
+(** value or error for every image; no loop, at most 22 reads, no length-prefixed allocation *)
+Theorem C15_ParseTXTRegs_total : forall d,
+  value_or_error (run (parse_txt_regs faithful d) d) /\ res_steps (run (parse_txt_regs faithful d) d) <= 22 /\
+  res_alloc (run (parse_txt_regs faithful d) d) = 0.
+Proof. exact P_txt_regs_total. Qed.
+Print Assumptions C15_ParseTXTRegs_total.
 
-(** unconditionally: no loop, at most 22 reads, no length-prefixed allocation *)
-Theorem C15_ParseTXTRegs_bounded : forall d,
-  run (parse_txt_regs d) d <> RFuel /\ res_steps (run (parse_txt_regs d) d) <= 22 /\
-  res_alloc (run (parse_txt_regs d) d) = 0.
-Proof. exact P_txt_regs_cost. Qed.
-Print Assumptions C15_ParseTXTRegs_bounded.
-
-Theorem C15_ParseTXTRegs_refuted : exists d, lenZ d = 16 /\ run (parse_txt_regs d) d = RPanic.
-Proof. exact P_txt_regs_refuted. Qed.
-Print Assumptions C15_ParseTXTRegs_refuted.
+(** ... since repair 84f1c2a (readTXTErrorCode / readDMAProtectedRange seek instead of
+    slicing): before it a 16-byte image panicked, now the read returns io.EOF *)
+Theorem C15_ParseTXTRegs_needs_seek : exists d, lenZ d = 16 /\ run (parse_txt_regs legacy d) d = RPanic /\
+  outcome_of (run (parse_txt_regs faithful d) d) = Err E_EOF.
+Proof. exact P_txt_regs_needs_seek. Qed.
+Print Assumptions C15_ParseTXTRegs_needs_seek.
 
 Theorem C15_ParseBIOSData_total : forall d,
   value_or_error (run parse_bios_data d) /\ res_steps (run parse_bios_data d) <= 8 /\
@@ -152,16 +159,16 @@ Theorem C15_ParseBIOSData_total : forall d,
 Proof. exact P_bios_data. Qed.
 Print Assumptions C15_ParseBIOSData_total.
 
-(** PARTIAL: needs an image that reaches ACM_STATUS at 0x328 *)
-Theorem C15_ReadACMStatus_total_partial : forall d, 808 <= lenZ d ->
-  value_or_error (run (read_acm_status d) d) /\ res_steps (run (read_acm_status d) d) <= 1 /\
-  res_alloc (run (read_acm_status d) d) = 0.
-Proof. exact P_acm_status_partial. Qed.
-Print Assumptions C15_ReadACMStatus_total_partial.
+Theorem C15_ReadACMStatus_total : forall d,
+  value_or_error (run (read_acm_status faithful d) d) /\ res_steps (run (read_acm_status faithful d) d) <= 1 /\
+  res_alloc (run (read_acm_status faithful d) d) = 0.
+Proof. exact P_acm_status_total. Qed.
+Print Assumptions C15_ReadACMStatus_total.
 
-Theorem C15_ReadACMStatus_refuted : exists d, lenZ d = 16 /\ run (read_acm_status d) d = RPanic.
-Proof. exact P_acm_status_refuted. Qed.
-Print Assumptions C15_ReadACMStatus_refuted.
+Theorem C15_ReadACMStatus_needs_seek : exists d, lenZ d = 16 /\ run (read_acm_status legacy d) d = RPanic /\
+  outcome_of (run (read_acm_status faithful d) d) = Err E_EOF.
+Proof. exact P_acm_status_needs_seek. Qed.
+Print Assumptions C15_ReadACMStatus_needs_seek.
 
 (** ReadACMPolicyStatusRaw (offset 0x378) and ReadBootStatusRaw (0xA0) seek instead of slicing: total for every offset *)
 Theorem C15_ReadRaw64_total : forall d off,
@@ -172,37 +179,40 @@ Print Assumptions C15_ReadRaw64_total.
 
 (** * 5. pkg/registers *)
 
-(** PARTIAL: ReadTXTRegisters needs an image that reaches TXT.PUBLIC.KEY at 0x400
-    (finding C15-D14-ReadTXT-short-image) *)
-Theorem C15_readtxt_total_partial : forall d, 1024 <= lenZ d ->
-  value_or_error (run (read_txt_registers d) d) /\ res_steps (run (read_txt_registers d) d) <= 16 /\
-  res_alloc (run (read_txt_registers d) d) = 0.
-Proof. exact P_readtxt_partial. Qed.
-Print Assumptions C15_readtxt_total_partial.
+(** ReadTXTRegisters: value or error for every image, 16 reads *)
+Theorem C15_readtxt_total : forall d,
+  value_or_error (run (read_txt_registers faithful d) d) /\ res_steps (run (read_txt_registers faithful d) d) <= 16 /\
+  res_alloc (run (read_txt_registers faithful d) d) = 0.
+Proof. exact P_readtxt_total. Qed.
+Print Assumptions C15_readtxt_total.
 
-Theorem C15_readtxt_refuted : exists d, lenZ d = 16 /\ run (read_txt_registers d) d = RPanic.
-Proof. exact P_readtxt_refuted. Qed.
-Print Assumptions C15_readtxt_refuted.
+(** ... since repair a533fa8 (TXTConfigSpace.from): before it a 16-byte image panicked, now it is
+    the collected error *)
+Theorem C15_readtxt_needs_bounds_check : exists d, lenZ d = 16 /\ run (read_txt_registers legacy d) d = RPanic /\
+  outcome_of (run (read_txt_registers faithful d) d) = Err E_OTHER.
+Proof. exact P_readtxt_needs_bounds_check. Qed.
+Print Assumptions C15_readtxt_needs_bounds_check.
 
-(** PARTIAL, per Read* function: the image must reach the register's offset *)
-Theorem C15_readreg_total_partial : forall d k off w sl,
-  nth_error txt_reg_table (Z.to_nat k) = Some (off, w, sl) -> off <= lenZ d ->
-  value_or_error (run (read_reg_k d k) d) /\ res_steps (run (read_reg_k d k) d) <= 1 /\
-  res_alloc (run (read_reg_k d k) d) = 0.
-Proof. exact P_readreg_partial. Qed.
-Print Assumptions C15_readreg_total_partial.
+(** every Read* function (k-th of the table; an index outside the table is the error of the
+    dispatcher) is total *)
+Theorem C15_readreg_total : forall d k,
+  value_or_error (run (read_reg_k faithful d k) d) /\ res_steps (run (read_reg_k faithful d k) d) <= 1 /\
+  res_alloc (run (read_reg_k faithful d k) d) = 0.
+Proof. exact P_readreg_total. Qed.
+Print Assumptions C15_readreg_total.
 
-(** the one reader that seeks (ReadACMPolicyStatusRegister) is total as stated *)
-Theorem C15_readreg_seek_total : forall d k off w,
-  nth_error txt_reg_table (Z.to_nat k) = Some (off, w, false) -> value_or_error (run (read_reg_k d k) d).
-Proof. exact P_readreg_seek. Qed.
-Print Assumptions C15_readreg_seek_total.
+(** an image that ends at or before the register's offset gives io.EOF ... *)
+Theorem C15_readreg_short_is_eof : forall d k off w sl,
+  nth_error txt_reg_table (Z.to_nat k) = Some (off, w, sl) -> lenZ d <= off ->
+  outcome_of (run (read_reg_k faithful d k) d) = Err E_EOF.
+Proof. exact P_readreg_short_eof. Qed.
+Print Assumptions C15_readreg_short_is_eof.
 
-(** the fifteen that slice panic on every image shorter than their offset *)
-Theorem C15_readreg_short_panics : forall d k off w,
-  nth_error txt_reg_table (Z.to_nat k) = Some (off, w, true) -> lenZ d < off -> run (read_reg_k d k) d = RPanic.
-Proof. exact P_readreg_short. Qed.
-Print Assumptions C15_readreg_short_panics.
+(** ... where before the repair the fifteen slicing readers panicked on every image shorter than their offset *)
+Theorem C15_readreg_needs_bounds_check : forall d k off w,
+  nth_error txt_reg_table (Z.to_nat k) = Some (off, w, true) -> lenZ d < off -> run (read_reg_k legacy d k) d = RPanic.
+Proof. exact P_readreg_needs_bounds_check. Qed.
+Print Assumptions C15_readreg_needs_bounds_check.
 
 Theorem C15_ValueFromBytes_total : forall id b,
   value_or_error (run (value_from_bytes id b) b) /\ res_steps (run (value_from_bytes id b) b) <= 1 /\
@@ -247,19 +257,21 @@ Theorem C15_BytesRange_total : forall len a b i, value_or_error (run (bytes_rang
 Proof. exact P_bytes_range. Qed.
 Print Assumptions C15_BytesRange_total.
 
-(** PARTIAL: with a password the data must hold the 12-byte nonce (finding C15-DecryptPrivKey-short-data) *)
-Theorem C15_DecryptPrivKey_total_partial : forall pw d, (pw = true -> 12 <= lenZ d) ->
-  value_or_error (run (decrypt_frame pw d) d).
-Proof. exact P_decrypt_partial. Qed.
-Print Assumptions C15_DecryptPrivKey_total_partial.
+(** DecryptPrivKey framing: value or error with and without a password *)
+Theorem C15_DecryptPrivKey_total : forall pw d, value_or_error (run (decrypt_frame faithful pw d) d).
+Proof. exact P_decrypt_total. Qed.
+Print Assumptions C15_DecryptPrivKey_total.
 
-Theorem C15_DecryptPrivKey_refuted : exists d, lenZ d = 3 /\ run (decrypt_frame true d) d = RPanic.
-Proof. exact P_decrypt_refuted. Qed.
-Print Assumptions C15_DecryptPrivKey_refuted.
+(** with a password, data shorter than the 12-byte nonce is an error ... *)
+Theorem C15_DecryptPrivKey_short_is_error : forall d, lenZ d < 12 ->
+  outcome_of (run (decrypt_frame faithful true d) d) = Err E_FIX.
+Proof. exact P_decrypt_short_error. Qed.
+Print Assumptions C15_DecryptPrivKey_short_is_error.
 
-Theorem C15_DecryptPrivKey_short_panics : forall d, lenZ d < 12 -> run (decrypt_frame true d) d = RPanic.
-Proof. exact P_decrypt_short. Qed.
-Print Assumptions C15_DecryptPrivKey_short_panics.
+(** ... since repair 4423a4c: before it every such key file panicked *)
+Theorem C15_DecryptPrivKey_needs_length_check : forall d, lenZ d < 12 -> run (decrypt_frame legacy true d) d = RPanic.
+Proof. exact P_decrypt_needs_length_check. Qed.
+Print Assumptions C15_DecryptPrivKey_needs_length_check.
 
 (** The loop of parsePrivateKey / ReadPubKey over the PEM blocks of a file.
     PARTIAL: encoding/pem.Decode is third-party; the hypothesis is its contract
@@ -275,28 +287,31 @@ Theorem C15_pem_loop_needs_progress : exists decode raw, forall fuel, pem_loop d
 Proof. exact P_pem_loop_needs_progress. Qed.
 Print Assumptions C15_pem_loop_needs_progress.
 
-(** * Examples: the hypotheses above are satisfiable by non-trivial values *)
+(** * Examples: non-trivial values *)
 
 (** a 32-byte ACM header whose Size field is 0x102 dwords *)
 Example C15_ex_lookup : 32 <= lenZ (repeat 0 24 ++ [2; 1; 0; 0] ++ repeat 0 4) /\
-  outcome_of (run (lookup_acm_size (repeat 0 24 ++ [2; 1; 0; 0] ++ repeat 0 4)) (repeat 0 24 ++ [2; 1; 0; 0] ++ repeat 0 4)) = Ok [1032].
+  outcome_of (run (lookup_acm_size faithful (repeat 0 24 ++ [2; 1; 0; 0] ++ repeat 0 4)) (repeat 0 24 ++ [2; 1; 0; 0] ++ repeat 0 4)) = Ok [1032].
 Proof. exact ex_lookup. Qed.
-(** the repairs exist, reject exactly the two hostile witnesses and leave a well-formed file alone *)
-Example C15_ex_fixes : fx_custom_min all_fixed = true /\ fx_cap all_fixed = true /\
-  outcome_of (run (policy_data all_fixed) (custom_witness [20; 0; 0; 0])) = Err E_FIX /\
-  outcome_of (run (policy_data all_fixed) (custom_witness [0; 0; 0; 64])) = Err E_FIX /\
-  outcome_of (run (policy_data all_fixed) custom_ok) = outcome_of (run (policy_data faithful) custom_ok) /\
+(** the code as it is has all the checks; they reject the two hostile LCP witnesses and leave a
+    well-formed file (one custom element with 8 data bytes: 72 + 8 + 8 bytes allocated) alone *)
+Example C15_ex_fixes : fx_custom_min faithful = true /\ fx_cap faithful = true /\ fx_bounds faithful = true /\
+  outcome_of (run (policy_data faithful) (custom_witness [20; 0; 0; 0])) = Err E_FIX /\
+  outcome_of (run (policy_data faithful) (custom_witness [0; 0; 0; 64])) = Err E_FIX /\
+  outcome_of (run (policy_data faithful) custom_ok) = outcome_of (run (policy_data legacy) custom_ok) /\
   (exists v, outcome_of (run (policy_data faithful) custom_ok) = Ok v) /\
   res_alloc (run (policy_data faithful) custom_ok) = 88.
 Proof. exact ex_fixes. Qed.
 Example C15_ex_readreg : nth_error txt_reg_table (Z.to_nat 4) = Some (1024, 32, true) /\
   nth_error txt_reg_table (Z.to_nat 0) = Some (888, 8, false) /\ nth_error txt_reg_table (Z.to_nat 16) = None.
 Proof. exact ex_readreg. Qed.
-Example C15_ex_readtxt : 1024 <= lenZ (repeat 7 1056) /\
-  exists v, outcome_of (run (read_txt_registers (repeat 7 1056)) (repeat 7 1056)) = Ok v.
+(** 0x420 bytes hold all sixteen registers; one byte less and TXT.PUBLIC.KEY is reported missing *)
+Example C15_ex_readtxt :
+  (exists v, outcome_of (run (read_txt_registers faithful (repeat 7 1056)) (repeat 7 1056)) = Ok v) /\
+  outcome_of (run (read_txt_registers faithful (repeat 7 1055)) (repeat 7 1055)) = Err E_OTHER.
 Proof. exact ex_readtxt. Qed.
-Example C15_ex_decrypt : (true = true -> 12 <= lenZ (repeat 1 12)) /\
-  run (decrypt_frame true (repeat 1 12)) (repeat 1 12) <> RPanic.
+Example C15_ex_decrypt : outcome_of (run (decrypt_frame faithful true (repeat 1 12)) (repeat 1 12)) = Ok [] /\
+  outcome_of (run (decrypt_frame faithful true (repeat 1 11)) (repeat 1 11)) = Err E_FIX.
 Proof. exact ex_decrypt. Qed.
 (** a block decoder that meets the contract: two certificates, then a key block / no key block *)
 Example C15_ex_pem_decode : exists decode : list Z -> option (bool * list Z),
